@@ -72,3 +72,21 @@ def validFlatB : STMoc → Bool
      | _, _ => false) && canonB e.2 && !e.2.isEmpty && validFlatB (f :: t)
 
 end Moc
+
+namespace Moc
+
+/-- Flat space-time coverage (`Ranges2D`): one time range per entry. -/
+abbrev FlatST := List (Rng × List Rng)
+
+/-- `project_on_second_dim` (time fold) as the code computes it: the entries whose time range
+    intersects `x` are kept and their space coverages are united (a parallel `reduce` in Rust: any
+    grouping / order of the unions). -/
+def tfoldRanges (x : List Rng) (flat : FlatST) : List Rng :=
+  (flat.filter fun e => intersectsRange x e.1).foldl (fun acc e => union acc e.2) []
+
+/-- `project_on_first_dim` (space fold): the time ranges of the entries all of whose space ranges
+    are contained in `y`, merged by `new_from_sorted`. -/
+def sfoldRanges (y : List Rng) (flat : FlatST) : List Rng :=
+  newFromSorted ((flat.filter fun e => containsAll y e.2).map (·.1))
+
+end Moc
